@@ -46,6 +46,15 @@ open Purity
 theorem only_known_mutable_statics :
     Gen.mutableStatics = ["NEW_COMPILATION_LEVEL_INT", "ARGNAME_CTR"] := by decide
 
+/-- the conversion-mode cell is PER THREAD (`thread_local!`) and the counter is the only process-wide mutable
+    item: the world model of (b) gives every thread its own mode cell, which is what the code does exactly
+    while this holds — a process-wide cell would let one thread's guard change what another thread's
+    compilation observes (seeded change C05-1 replaces the cell by a `static AtomicBool` of the same name;
+    `only_known_mutable_statics` alone would not notice). -/
+theorem mode_cell_is_thread_local :
+    (Gen.statics.filter (·.isMutable)).map (fun s => (s.name, s.kind)) =
+      [("NEW_COMPILATION_LEVEL_INT", "thread_local"), ("ARGNAME_CTR", "lazy_static")] := by decide
+
 /-! ### (b) the conversion-mode guard -/
 
 /-- **guard_restores**: after any code that touches the mode only through guards — whatever its
